@@ -977,3 +977,9 @@ Proof.
     - specialize (IH p H). destruct (pool_run p ls0). assumption. }
   cbv zeta. apply G. split; [constructor | reflexivity].
 Qed.
+
+(* ================================================================== *)
+(* the record format follows the negotiated Produce version *)
+Lemma produce_record_format : forall v,
+  (produce_record_version v = 2 <-> 3 <= v) /\ (produce_record_version v = 1 <-> v < 3).
+Proof. intro v. unfold produce_record_version. destruct (v <? 3) eqn:E; lia. Qed.
